@@ -18,8 +18,8 @@ from . import models
 from . import cbmc
 
 VERIF = os.path.dirname(os.path.dirname(os.path.abspath(__file__)))
-REPO_INC = '/repo/code/include'
-BUILD = os.path.join(VERIF, 'build')
+REPO_INC = os.path.join(os.environ.get('VERIF_REPO') or '/repo', 'code/include')   # VERIF_REPO: development runs against a scratch worktree
+BUILD = os.environ.get('VERIF_BUILD') or os.path.join(VERIF, 'build')   # VERIF_BUILD: development runs beside a registered run
 
 
 class Inst:
